@@ -27,8 +27,8 @@
 (* Raise(L, k) unwinds to the nearest frame whose label has an entry in    *)
 (* the handler table H (try/except and try/finally of the code).           *)
 (* One action per label.  Labels that touch only thread-local state are    *)
-(* "silent"; they commute with everything, so they are given priority      *)
-(* (lowest actor first) - a sound partial-order reduction.  "Observable"   *)
+(* "silent" (step functions S_<label>); they are run to completion inside  *)
+(* the observable action that reaches them (Norm).  "Observable"           *)
 (* actions are exactly the points the harness can log: body operations,    *)
 (* every DB-API call, lock acquire/release, session start/end.             *)
 (*                                                                         *)
@@ -108,13 +108,13 @@ Pids == 1..(1 + MaxForks + 1)
 -----------------------------------------------------------------------------
 (* Frames and the local state record *)
 
-Fr(l)     == [l |-> l, e |-> NoE, x |-> NoE, b |-> FALSE]
-FrB(l, b) == [l |-> l, e |-> NoE, x |-> NoE, b |-> b]
-FrE(l, e) == [l |-> l, e |-> e,  x |-> NoE, b |-> FALSE]
+NoReq  == [kind |-> "read", w |-> 0]
+Fr(l)     == [l |-> l, e |-> NoE, x |-> NoE, b |-> FALSE, r |-> NoReq]
+FrB(l, b) == [l |-> l, e |-> NoE, x |-> NoE, b |-> b, r |-> NoReq]
+FrE(l, e) == [l |-> l, e |-> e,  x |-> NoE, b |-> FALSE, r |-> NoReq]
+FrR(l, k, w) == [l |-> l, e |-> NoE, x |-> NoE, b |-> FALSE, r |-> [kind |-> k, w |-> w]]   \* _exec_sql(statement)
 
 NoSess == [form |-> "cm", kind |-> "opt", retry |-> 0, dbr |-> FALSE]
-NoReq  == [kind |-> "read", w |-> 0]
-
 Fresh(p) == [
     pid |-> p, stk |-> <<>>, depth |-> 0, sess |-> NoSess, attempt |-> 0, bodyRuns |-> 0,
     ops |-> 0, wr |-> 0, started |-> FALSE,
@@ -130,12 +130,12 @@ Fresh(p) == [
     nc |-> 0,                \* connections this actor opened
     nwl |-> 0,               \* writes this actor issued (write ids are 100*a + 1 ..)
     cur |-> 0,               \* the local variable `connection` of connect()/close()
-    req |-> NoReq,           \* the statement _exec_sql is executing
     sessDone |-> 0,
     outs |-> <<>>,           \* ghost: exception that ended each attempt ("ok" for none)
     bodyOut |-> NoE, result |-> NoE, lastW |-> {}, fin |-> FALSE, faulted |-> FALSE ]
 
 Unborn == Fresh(0)
+NoConn == [st |-> "unused", creator |-> 0, by |-> 0, inDbTx |-> FALSE, txw |-> {}, closes |-> 0, ready |-> FALSE]
 
 Top(L) == L.stk[Len(L.stk)]
 Lbl(L) == IF L.stk = <<>> THEN "" ELSE Top(L).l
@@ -195,23 +195,11 @@ NewCache(L) == [L EXCEPT !.cache = "alive", !.cconn = 0, !.inTx = FALSE, !.imm =
 GetCache(L) == IF L.cache = "alive" THEN L ELSE NewCache(L)
 
 -----------------------------------------------------------------------------
-(* Scheduling: silent labels first *)
-
-SilentLbls == {
-    "WC0", "WC1", "WC1x", "WC2", "WCz", "WD0", "WD1", "WD2", "WD3", "WD4", "WD5", "WD5x", "WD6", "WD7", "WDx", "WDz",
-    "WG0", "WG1", "WGy", "WGr2", "WGr3", "WGx", "WGx2", "WGx3", "WG9", "BX",
-    "EX0", "EX2", "EX3", "EX4", "EX4x", "EX9", "CM0", "CM1", "CM1x", "CM1y", "CM2", "CM2x", "CC1", "CC2", "CCx", "CCy",
-    "FL0", "FL1", "FL9", "ES0", "PC0", "PC2", "PC3", "CN0", "CN1e", "CN2", "CN3", "CN3x", "CN3y",
-    "ST0", "ST2", "ST3", "ST9", "ST10", "PV0", "PV1", "PV2", "PR0", "PR1", "PR2", "PD0", "PD1", "PD2",
-    "CL0", "CL2", "CL2x", "CL2y", "CL3", "CL9", "RL0", "RLx", "RLxe", "RL3", "RL4x", "RL4e", "RL9", "RB0", "RB1", "RB1x" }
+(* Scheduling *)
 
 Alive(a)   == th[a].pid # 0 /\ th[a].pid \notin dead
-Pending(a) == Alive(a) /\ Lbl(th[a]) \in SilentLbls
-Turn(a)    == Pending(a) /\ \A b \in Actors : b < a => ~Pending(b)
-Quiet      == \A b \in Actors : ~Pending(b)
-
 Idle(a)    == Alive(a) /\ th[a].stk = <<>>
-Resting(a) == Alive(a) /\ (th[a].stk = <<>> \/ Lbl(th[a]) = "SUSP")
+Resting(a) == Alive(a) /\ (th[a].stk = <<>> \/ Lbl(th[a]) \in {"SUSP", "END"})
 
 (* Reduction.  Connection ids, write ids and the fault budget are per actor, so every action of an actor  *)
 (* commutes with every action of another actor except: acquiring the two locks (competing), and the      *)
@@ -224,15 +212,17 @@ AcquireLbls == {"ST0p", "ST0t"}
 Eager(a) == /\ Alive(a) /\ Lbl(th[a]) \notin AcquireLbls \cup {"DEAD"}
             /\ th[a].stk = <<>> => th[a].sessDone < MaxSess \/ (forks > 0 /\ \E b \in Actors : th[b].pid = 0)
 MyTurn(a) == Reduce => \A b \in Actors : b < a => ~Eager(b)
-Upd(a, L2) == th' = [th EXCEPT ![a] = L2]
-Sil(a, l)  == Turn(a) /\ Lbl(th[a]) = l /\ UNCHANGED shared
-Obs(a, l)  == Quiet /\ Alive(a) /\ Lbl(th[a]) = l /\ MyTurn(a)
+\* Silent labels (thread-local code between two observable points) are executed to completion inside the
+\* observable action that reaches them: Norm, defined after the step functions S_<label> below.
+RECURSIVE Norm(_)
+Upd(a, L2) == th' = [th EXCEPT ![a] = Norm(L2)]
+Obs(a, l)  == Lbl(th[a]) = l /\ Alive(a) /\ MyTurn(a)
 
 -----------------------------------------------------------------------------
 (* Session forms *)
 
 Start(a, form, kind, retry, dbr) ==
-    /\ Quiet /\ Idle(a) /\ th[a].sessDone < MaxSess /\ MyTurn(a)
+    /\ Idle(a) /\ th[a].sessDone < MaxSess /\ MyTurn(a)
     /\ form \in Forms /\ kind \in Kinds /\ retry \in 0..MaxRetry /\ dbr \in BOOLEAN
     /\ form # "dec" => retry = 0                      \* __enter__ rejects retry; generators reject retry
     /\ retry = 0 => ~dbr
@@ -244,55 +234,71 @@ Start(a, form, kind, retry, dbr) ==
     /\ UNCHANGED shared
 
 \* ---- with db_session: ------------------------------------------------------
-WC0(a) == Sil(a, "WC0") /\ LET L == th[a] IN Upd(a, Call([L EXCEPT !.depth = 1], "WC1", Fr("B0")))
-WC1(a) == Sil(a, "WC1") /\ LET L == th[a] IN Upd(a, Call(L, "WC2", FrE("EX0", NoE)))
-WC1x(a) == Sil(a, "WC1x") /\ LET L == th[a] IN Upd(a, Call(L, "WC2", FrE("EX0", Top(L).x)))
-WC2(a) == Sil(a, "WC2") /\ LET L == th[a] IN
-          Upd(a, Goto([L EXCEPT !.result = IF L.bodyOut = "ok" THEN "ok" ELSE L.bodyOut], "END"))
-WCz(a) == Sil(a, "WCz") /\ LET L == th[a] IN Upd(a, Goto([L EXCEPT !.result = Top(L).x], "END"))
+S_WC0(L0) == LET L == L0 IN (Call([L EXCEPT !.depth = 1], "WC1", Fr("B0")))
+S_WC1(L0) == LET L == L0 IN (Call(L, "WC2", FrE("EX0", NoE)))
+S_WC1x(L0) == LET L == L0 IN (Call(L, "WC2", FrE("EX0", Top(L).x)))
+S_WC2(L0) == LET L == L0 IN
+          (Goto([L EXCEPT !.result = IF L.bodyOut = "ok" THEN "ok" ELSE L.bodyOut], "END"))
+S_WCz(L0) == LET L == L0 IN (Goto([L EXCEPT !.result = Top(L).x], "END"))
 
 \* ---- @db_session(retry=n) ----------------------------------------------------
-WD0(a) == Sil(a, "WD0") /\ LET L == th[a] IN Upd(a, Call([L EXCEPT !.depth = 1], "WD1", Fr("B0")))
-WD1(a) == Sil(a, "WD1") /\ LET L == th[a] IN Upd(a, Call(L, "WD2", Fr("CM0")))         \* commit() after func()
-WD2(a) == Sil(a, "WD2") /\ LET L == th[a] IN
-          Upd(a, Call([L EXCEPT !.outs = Append(@, "ok")], "WD3", FrE("EX0", NoE)))       \* finally: __exit__(None)
-WD3(a) == Sil(a, "WD3") /\ LET L == th[a] IN Upd(a, Goto([L EXCEPT !.result = "ok"], "END"))
-WDx(a) == Sil(a, "WDx") /\ LET L == th[a] k == Top(L).x L1 == SetE([L EXCEPT !.outs = Append(@, k)], k) IN
-          Upd(a, IF IsRetry(L, k) THEN Call(L1, "WD5", Fr("RB0"))                         \* rollback()
+S_WD0(L0) == LET L == L0 IN (Call([L EXCEPT !.depth = 1], "WD1", Fr("B0")))
+S_WD1(L0) == LET L == L0 IN (Call(L, "WD2", Fr("CM0")))         \* commit() after func()
+S_WD2(L0) == LET L == L0 IN
+          (Call([L EXCEPT !.outs = Append(@, "ok")], "WD3", FrE("EX0", NoE)))       \* finally: __exit__(None)
+S_WD3(L0) == LET L == L0 IN (Goto([L EXCEPT !.result = "ok"], "END"))
+S_WDx(L0) == LET L == L0 k == Top(L).x L1 == SetE([L EXCEPT !.outs = Append(@, k)], k) IN
+          (IF IsRetry(L, k) THEN Call(L1, "WD5", Fr("RB0"))                         \* rollback()
                  ELSE Call(L1, "WD4", FrE("EX0", k)))                                     \* raise; finally: __exit__
-WD4(a) == Sil(a, "WD4") /\ LET L == th[a] IN Upd(a, Goto([L EXCEPT !.result = Top(L).e], "END"))
-WD5(a) == Sil(a, "WD5") /\ LET L == th[a] IN Upd(a, Call(L, "WD7", FrE("EX0", Top(L).e)))
-WD5x(a) == Sil(a, "WD5x") /\ LET L == th[a] IN Upd(a, Call(L, "WD6", FrE("EX0", Top(L).e)))
-WD6(a) == Sil(a, "WD6") /\ LET L == th[a] IN Upd(a, Goto([L EXCEPT !.result = Top(L).x], "END"))
-WD7(a) == Sil(a, "WD7") /\ LET L == th[a] IN
-          Upd(a, IF L.attempt < L.sess.retry
+S_WD4(L0) == LET L == L0 IN (Goto([L EXCEPT !.result = Top(L).e], "END"))
+S_WD5(L0) == LET L == L0 IN (Call(L, "WD7", FrE("EX0", Top(L).e)))
+S_WD5x(L0) == LET L == L0 IN (Call(L, "WD6", FrE("EX0", Top(L).e)))
+S_WD6(L0) == LET L == L0 IN (Goto([L EXCEPT !.result = Top(L).x], "END"))
+S_WD7(L0) == LET L == L0 IN
+          (IF L.attempt < L.sess.retry
                  THEN [L EXCEPT !.attempt = @ + 1, !.stk = <<Fr("WD0")>>]
                  ELSE Goto([L EXCEPT !.result = Top(L).e], "END"))
-WDz(a) == Sil(a, "WDz") /\ LET L == th[a] IN Upd(a, Goto([L EXCEPT !.result = Top(L).x], "END"))
+S_WDz(L0) == LET L == L0 IN (Goto([L EXCEPT !.result = Top(L).x], "END"))
 
 \* ---- @db_session on a generator function -------------------------------------
-WG0(a) == Sil(a, "WG0") /\ LET L == th[a]
+S_WG0(L0) == LET L == L0
                                L1 == [L EXCEPT !.depth = 1, !.cache = IF @ = "stashed" THEN "alive" ELSE @] IN
-          Upd(a, IF L.started THEN Call(L1, "WG1", Fr("B")) ELSE Call(L1, "WG1", Fr("B0")))
-WG1(a) == Sil(a, "WG1") /\ LET L == th[a] IN Upd(a, Call(L, "WGr2", Fr("CM0")))          \* StopIteration: commit()
-WGy(a) == Sil(a, "WGy") /\ LET L == th[a] IN
-          Upd(a, IF L.cache = "alive" /\ (L.modified \/ L.inTx)
+          (IF L.started THEN Call(L1, "WG1", Fr("B")) ELSE Call(L1, "WG1", Fr("B0")))
+S_WG1(L0) == LET L == L0 IN (Call(L, "WGr2", Fr("CM0")))          \* StopIteration: commit()
+S_WGy(L0) == LET L == L0 IN
+          (IF L.cache = "alive" /\ (L.modified \/ L.inTx)
                  THEN GotoX([L EXCEPT !.bodyOut = "txerr", !.lastW = L.unit], "WGx", "txerr")
                  ELSE SetB(Goto(L, "WG9"), FALSE))
-WGr2(a) == Sil(a, "WGr2") /\ LET L == th[a] IN
-           Upd(a, IF L.cache = "alive" THEN Call(L, "WGr3", FrB("CL0", FALSE)) ELSE Goto(L, "WGr3"))
-WGr3(a) == Sil(a, "WGr3") /\ LET L == th[a] IN Upd(a, SetB(Goto([L EXCEPT !.result = "ok"], "WG9"), TRUE))
-WGx(a) == Sil(a, "WGx") /\ LET L == th[a] IN Upd(a, Call(SetE(L, Top(L).x), "WGx2", Fr("RB0")))
-WGx2(a) == Sil(a, "WGx2") /\ LET L == th[a] IN Upd(a, SetB(Goto([L EXCEPT !.result = Top(L).e], "WG9"), TRUE))
-WGx3(a) == Sil(a, "WGx3") /\ LET L == th[a] IN Upd(a, SetB(Goto([L EXCEPT !.result = Top(L).e], "WG9"), TRUE))
-WG9(a) == Sil(a, "WG9") /\ LET L == th[a]
+S_WGr2(L0) == LET L == L0 IN
+           (IF L.cache = "alive" THEN Call(L, "WGr3", FrB("CL0", FALSE)) ELSE Goto(L, "WGr3"))
+S_WGr3(L0) == LET L == L0 IN (SetB(Goto([L EXCEPT !.result = "ok"], "WG9"), TRUE))
+S_WGx(L0) == LET L == L0 IN (Call(SetE(L, Top(L).x), "WGx2", Fr("RB0")))
+S_WGx2(L0) == LET L == L0 IN (SetB(Goto([L EXCEPT !.result = Top(L).e], "WG9"), TRUE))
+S_WGx3(L0) == LET L == L0 IN (SetB(Goto([L EXCEPT !.result = Top(L).e], "WG9"), TRUE))
+S_WG9(L0) == LET L == L0
                                L1 == [L EXCEPT !.depth = 0, !.cache = IF @ = "alive" THEN "stashed" ELSE @] IN
-          Upd(a, IF Top(L).b THEN Goto(L1, "END") ELSE Goto(L1, "SUSP"))
+          (IF Top(L).b THEN Goto(L1, "END") ELSE Goto(L1, "SUSP"))
 Resume(a) == Obs(a, "SUSP") /\ Upd(a, Goto(th[a], "WG0")) /\ UNCHANGED shared
 
-End(a) == /\ Obs(a, "END")
-          /\ Upd(a, [th[a] EXCEPT !.stk = <<>>, !.sessDone = @ + 1, !.fin = TRUE])
-          /\ UNCHANGED shared
+(* End of a session.  Under Reduce the model forgets what no later transition can read: the finished     *)
+(* session's ghost fields, its write ids (they are in no connection's transaction: LockReleased), closed *)
+(* connections; the pooled connection is renamed to the actor's first slot.                              *)
+End(a) ==
+    /\ Obs(a, "END")
+    /\ UNCHANGED <<lock, pre, faults, fowner, forks, npid, dead, flags>>
+    /\ IF ~Reduce
+       THEN /\ Upd(a, [th[a] EXCEPT !.stk = <<>>, !.sessDone = @ + 1, !.fin = TRUE])
+            /\ UNCHANGED <<conns, committed>>
+       ELSE LET L == th[a] base == (a - 1) * ConnPer
+                own == L.pool # 0 /\ conns[L.pool].by = a /\ conns[L.pool].creator = L.pid IN
+            /\ Upd(a, [Fresh(L.pid) EXCEPT !.sessDone = L.sessDone + 1, !.fin = TRUE,
+                                            !.pool = IF own THEN base + 1 ELSE L.pool, !.poolPid = L.poolPid,
+                                            !.nc = IF own THEN 1 ELSE 0])
+            /\ conns' = [c \in ConnIds |->
+                             IF c \in (base + 1)..(base + ConnPer)
+                             THEN (IF c = base + 1 /\ own THEN conns[L.pool] ELSE NoConn)
+                             ELSE conns[c]]
+            /\ committed' = {w \in committed : w \div 100 # a}
 
 -----------------------------------------------------------------------------
 (* The body *)
@@ -304,7 +310,7 @@ More(a) == th[a].ops < MaxOps
 Op(L)   == [L EXCEPT !.ops = @ + 1]
 
 BodyRead(a) == /\ Obs(a, "B") /\ More(a)
-               /\ Upd(a, Call([Op(th[a]) EXCEPT !.req = [kind |-> "read", w |-> 0]], "B", Fr("ES0")))
+               /\ Upd(a, Call(Op(th[a]), "B", FrR("ES0", "read", 0)))
                /\ UNCHANGED shared
 BodyWrite(a) ==      \* ORM create/update/delete: deferred to the next flush
     /\ Obs(a, "B") /\ More(a) /\ th[a].wr < MaxWrites
@@ -314,7 +320,7 @@ BodyWrite(a) ==      \* ORM create/update/delete: deferred to the next flush
 BodyRawWrite(a) ==   \* db.execute / db.insert: start_transaction=True
     /\ Obs(a, "B") /\ More(a) /\ th[a].wr < MaxWrites
     /\ LET L == Op(th[a]) w == 100 * a + L.nwl + 1 IN
-       Upd(a, Call([L EXCEPT !.nwl = @ + 1, !.wr = @ + 1, !.unit = @ \cup {w}, !.req = [kind |-> "write", w |-> w]], "B", Fr("ES0")))
+       Upd(a, Call([L EXCEPT !.nwl = @ + 1, !.wr = @ + 1, !.unit = @ \cup {w}], "B", FrR("ES0", "write", w)))
     /\ UNCHANGED shared
 BodyFlush(a) == /\ Obs(a, "B") /\ More(a) /\ th[a].cache = "alive"
                 /\ Upd(a, Call(Op(th[a]), "B", Fr("FL0"))) /\ UNCHANGED shared
@@ -340,137 +346,133 @@ BodyFail(a) ==       \* a database error arrives in the body and leaves it (D2)
     /\ Obs(a, "BE")
     /\ LET L == th[a] IN Upd(a, SetE(Goto([L EXCEPT !.bodyOut = Top(L).x, !.lastW = L.unit], "BX"), Top(L).x))
     /\ UNCHANGED shared
-BX(a) == Sil(a, "BX") /\ LET L == th[a] IN          \* the exception passes the inner __exit__s: counter only
-         Upd(a, IF L.depth > 1 THEN [L EXCEPT !.depth = @ - 1] ELSE RaiseOut(L, Top(L).e))
+S_BX(L0) == LET L == L0 IN          \* the exception passes the inner __exit__s: counter only
+         (IF L.depth > 1 THEN [L EXCEPT !.depth = @ - 1] ELSE RaiseOut(L, Top(L).e))
 
 -----------------------------------------------------------------------------
 (* DBSessionContextManager.__exit__ / _commit_or_rollback *)
 
-EX0(a) == Sil(a, "EX0") /\ LET L == th[a] L1 == [L EXCEPT !.depth = @ - 1] k == Top(L).e IN
-          Upd(a, IF L1.depth > 0 THEN Ret(L1)
+S_EX0(L0) == LET L == L0 L1 == [L EXCEPT !.depth = @ - 1] k == Top(L).e IN
+          (IF L1.depth > 0 THEN Ret(L1)
                  ELSE IF CanCommit(k) THEN Call(L1, "EX2", Fr("CM0")) ELSE Call(L1, "EX4", Fr("RB0")))
-EX2(a) == Sil(a, "EX2") /\ LET L == th[a] IN       \* for cache in _get_caches(): cache.release()
-          Upd(a, IF L.cache = "alive" THEN Call(L, "EX3", FrB("CL0", FALSE)) ELSE Goto(L, "EX9"))
-EX3(a) == Sil(a, "EX3") /\ Upd(a, Goto(th[a], "EX9"))
-EX4(a) == Sil(a, "EX4") /\ Upd(a, Goto(th[a], "EX9"))
-EX4x(a) == Sil(a, "EX4x") /\ Upd(a, GotoX(th[a], "EX9", NoE))     \* exc_type is not None: swallowed
-EX9(a) == Sil(a, "EX9") /\ LET L == th[a] IN
-          Upd(a, IF Top(L).x # NoE THEN RaiseOut(L, Top(L).x) ELSE Ret(L))
+S_EX2(L0) == LET L == L0 IN       \* for cache in _get_caches(): cache.release()
+          (IF L.cache = "alive" THEN Call(L, "EX3", FrB("CL0", FALSE)) ELSE Goto(L, "EX9"))
+S_EX3(L0) == (Goto(L0, "EX9"))
+S_EX4(L0) == (Goto(L0, "EX9"))
+S_EX4x(L0) == (GotoX(L0, "EX9", NoE))     \* exc_type is not None: swallowed
+S_EX9(L0) == LET L == L0 IN
+          (IF Top(L).x # NoE THEN RaiseOut(L, Top(L).x) ELSE Ret(L))
 
 \* ---- commit() ----------------------------------------------------------------
-CM0(a) == Sil(a, "CM0") /\ LET L == th[a] IN
-          Upd(a, IF L.cache # "alive" THEN Ret(L) ELSE Call(L, "CM1", Fr("FL0")))
-CM1(a) == Sil(a, "CM1") /\ Upd(a, Call(th[a], "CM2", Fr("CC1")))
-CM1x(a) == Sil(a, "CM1x") /\ LET L == th[a] IN Upd(a, Call(SetE(L, Top(L).x), "CM1y", Fr("RB0")))
-CM1y(a) == Sil(a, "CM1y") /\ LET L == th[a] IN Upd(a, RaiseOut(L, Top(L).e))
-CM2(a) == Sil(a, "CM2") /\ Upd(a, Ret(th[a]))
-CM2x(a) == Sil(a, "CM2x") /\ Upd(a, RaiseOut(th[a], "commitexc"))
+S_CM0(L0) == LET L == L0 IN
+          (IF L.cache # "alive" THEN Ret(L) ELSE Call(L, "CM1", Fr("FL0")))
+S_CM1(L0) == (Call(L0, "CM2", Fr("CC1")))
+S_CM1x(L0) == LET L == L0 IN (Call(SetE(L, Top(L).x), "CM1y", Fr("RB0")))
+S_CM1y(L0) == LET L == L0 IN (RaiseOut(L, Top(L).e))
+S_CM2(L0) == (Ret(L0))
+S_CM2x(L0) == (RaiseOut(L0, "commitexc"))
 
 \* ---- SessionCache.commit ------------------------------------------------------
-CC1(a) == Sil(a, "CC1") /\ LET L == th[a] IN
-          Upd(a, IF L.inTx THEN Call(L, "CC2", Fr("PV0")) ELSE Goto(L, "CC2"))
-CC2(a) == Sil(a, "CC2") /\ Upd(a, Ret([th[a] EXCEPT !.imm = TRUE]))
-CCx(a) == Sil(a, "CCx") /\ LET L == th[a] IN Upd(a, Call(SetE(L, Top(L).x), "CCy", FrB("CL0", TRUE)))
-CCy(a) == Sil(a, "CCy") /\ LET L == th[a] IN Upd(a, RaiseOut(L, Top(L).e))
+S_CC1(L0) == LET L == L0 IN
+          (IF L.inTx THEN Call(L, "CC2", Fr("PV0")) ELSE Goto(L, "CC2"))
+S_CC2(L0) == (Ret([L0 EXCEPT !.imm = TRUE]))
+S_CCx(L0) == LET L == L0 IN (Call(SetE(L, Top(L).x), "CCy", FrB("CL0", TRUE)))
+S_CCy(L0) == LET L == L0 IN (RaiseOut(L, Top(L).e))
 
 \* ---- rollback() ---------------------------------------------------------------
-RB0(a) == Sil(a, "RB0") /\ LET L == th[a] IN
-          Upd(a, IF L.cache # "alive" THEN Ret(L) ELSE Call(L, "RB1", FrB("CL0", TRUE)))
-RB1(a) == Sil(a, "RB1") /\ Upd(a, Ret(th[a]))
-RB1x(a) == Sil(a, "RB1x") /\ Upd(a, RaiseOut(th[a], "rollbackexc"))
+S_RB0(L0) == LET L == L0 IN
+          (IF L.cache # "alive" THEN Ret(L) ELSE Call(L, "RB1", FrB("CL0", TRUE)))
+S_RB1(L0) == (Ret(L0))
+S_RB1x(L0) == (RaiseOut(L0, "rollbackexc"))
 
 \* ---- SessionCache.flush -------------------------------------------------------
-FL0(a) == Sil(a, "FL0") /\ LET L == th[a] IN
-          Upd(a, Goto(SetB([L EXCEPT !.imm = TRUE], L.imm), "FL1"))               \* b = prev_immediate
-FL1(a) == Sil(a, "FL1") /\ LET L == th[a] IN
-          Upd(a, IF ~L.modified THEN Goto(L, "FL9")
+S_FL0(L0) == LET L == L0 IN
+          (Goto(SetB([L EXCEPT !.imm = TRUE], L.imm), "FL1"))               \* b = prev_immediate
+S_FL1(L0) == LET L == L0 IN
+          (IF ~L.modified THEN Goto(L, "FL9")
                  ELSE IF L.pend = {} THEN Goto([L EXCEPT !.modified = FALSE], "FL9")
-                 ELSE Call([L EXCEPT !.noflush = TRUE, !.req = [kind |-> "flush", w |-> 0]], "FL1", Fr("ES0")))
-FL9(a) == Sil(a, "FL9") /\ LET L == th[a]
+                 ELSE Call([L EXCEPT !.noflush = TRUE], "FL1", FrR("ES0", "flush", 0)))
+S_FL9(L0) == LET L == L0
                                L1 == [L EXCEPT !.noflush = FALSE, !.imm = IF L.inTx THEN @ ELSE Top(L).b] IN
-          Upd(a, IF Top(L).x # NoE THEN RaiseOut(L1, Top(L).x) ELSE Ret(L1))
+          (IF Top(L).x # NoE THEN RaiseOut(L1, Top(L).x) ELSE Ret(L1))
 
 \* ---- Database._exec_sql -------------------------------------------------------
-ES0(a) == Sil(a, "ES0") /\ LET L == GetCache(th[a])
-                               L1 == IF L.req.kind # "read" THEN [L EXCEPT !.imm = TRUE] ELSE L IN
-          Upd(a, Call(L1, "ES1", Fr("PC0")))
+S_ES0(L0) == LET L == GetCache(L0)
+                               L1 == IF Top(L).r.kind # "read" THEN [L EXCEPT !.imm = TRUE] ELSE L IN
+          (Call(L1, "ES1", Fr("PC0")))
 
 \* ---- prepare_connection_for_query_execution -----------------------------------
-PC0(a) == Sil(a, "PC0") /\ LET L == th[a] IN
-          Upd(a, IF L.cconn = 0 THEN Call(L, "PC2", Fr("CN0"))
+S_PC0(L0) == LET L == L0 IN
+          (IF L.cconn = 0 THEN Call(L, "PC2", Fr("CN0"))
                  ELSE IF L.imm /\ ~L.inTx THEN Call([L EXCEPT !.cur = L.cconn], "PC2", Fr("ST0"))   \* D3: reconnect re-raises
                  ELSE Goto(L, "PC2"))
-PC2(a) == Sil(a, "PC2") /\ LET L == th[a] IN
-          Upd(a, IF ~L.noflush /\ L.modified THEN Call(L, "PC3", Fr("FL0")) ELSE Ret(L))
-PC3(a) == Sil(a, "PC3") /\ Upd(a, Ret(th[a]))
+S_PC2(L0) == LET L == L0 IN
+          (IF ~L.noflush /\ L.modified THEN Call(L, "PC3", Fr("FL0")) ELSE Ret(L))
+S_PC3(L0) == (Ret(L0))
 
 \* ---- SessionCache.connect / Pool.connect --------------------------------------
-CN0(a) == Sil(a, "CN0") /\ LET L == th[a]
+S_CN0(L0) == LET L == L0
                                L1 == IF L.pool # 0 /\ L.poolPid # L.pid      \* forked: forget the parent's connection
                                      THEN [L EXCEPT !.pool = 0, !.poolPid = 0] ELSE L IN
-          Upd(a, IF L1.pool = 0 THEN Goto(L1, "CN1") ELSE Goto([L1 EXCEPT !.cur = L1.pool], "CN2"))
-CN1e(a) == Sil(a, "CN1e") /\ Upd(a, RaiseOut(th[a], Top(th[a]).x))
-CN2(a) == Sil(a, "CN2") /\ Upd(a, Call(th[a], "CN3", Fr("ST0")))
-CN3(a) == Sil(a, "CN3") /\ LET L == th[a] IN Upd(a, Ret([L EXCEPT !.cconn = L.cur]))
-CN3x(a) == Sil(a, "CN3x") /\ LET L == th[a] IN Upd(a, Call(SetE(L, Top(L).x), "CN3y", Fr("PD0")))
-CN3y(a) == Sil(a, "CN3y") /\ LET L == th[a] IN Upd(a, RaiseOut(L, Top(L).e))
+          (IF L1.pool = 0 THEN Goto(L1, "CN1") ELSE Goto([L1 EXCEPT !.cur = L1.pool], "CN2"))
+S_CN1e(L0) == (RaiseOut(L0, Top(L0).x))
+S_CN2(L0) == (Call(L0, "CN3", Fr("ST0")))
+S_CN3(L0) == LET L == L0 IN (Ret([L EXCEPT !.cconn = L.cur]))
+S_CN3x(L0) == LET L == L0 IN (Call(SetE(L, Top(L).x), "CN3y", Fr("PD0")))
+S_CN3y(L0) == LET L == L0 IN (RaiseOut(L, Top(L).e))
 
 \* ---- provider.set_transaction_mode(connection = cur, cache) -------------------
-ST0(a) == Sil(a, "ST0") /\ LET L == th[a] IN
-          Upd(a, IF ~Sqlite THEN Ret(L) ELSE IF L.imm THEN Goto(L, "ST0p") ELSE Goto(L, "ST1"))
-ST2(a) == Sil(a, "ST2") /\ LET L == th[a] IN Upd(a, IF L.sess.kind = "ddl" THEN Goto(L, "ST2a") ELSE Goto(L, "ST3"))
-ST3(a) == Sil(a, "ST3") /\ LET L == th[a] IN Upd(a, IF L.imm THEN Goto(L, "ST3b") ELSE Goto(L, "ST9"))
-ST9(a) == Sil(a, "ST9") /\ LET L == th[a] IN
-          Upd(a, IF L.imm /\ ~L.inTx THEN Goto(L, "ST9r") ELSE Goto(L, "ST10"))
-ST10(a) == Sil(a, "ST10") /\ LET L == th[a] IN
-           Upd(a, IF Top(L).x # NoE THEN RaiseOut(L, Top(L).x) ELSE Ret(L))
+S_ST0(L0) == LET L == L0 IN
+          (IF ~Sqlite THEN Ret(L) ELSE IF L.imm THEN Goto(L, "ST0p") ELSE Goto(L, "ST1"))
+S_ST2(L0) == LET L == L0 IN (IF L.sess.kind = "ddl" THEN Goto(L, "ST2a") ELSE Goto(L, "ST3"))
+S_ST3(L0) == LET L == L0 IN (IF L.imm THEN Goto(L, "ST3b") ELSE Goto(L, "ST9"))
+S_ST9(L0) == LET L == L0 IN
+          (IF L.imm /\ ~L.inTx THEN Goto(L, "ST9r") ELSE Goto(L, "ST10"))
+S_ST10(L0) == LET L == L0 IN
+           (IF Top(L).x # NoE THEN RaiseOut(L, Top(L).x) ELSE Ret(L))
 
 \* ---- provider.commit / rollback / drop (SQLite: finally release the lock) -----
-PV0(a) == Sil(a, "PV0") /\ LET L == th[a] IN Upd(a, Goto(SetB([L EXCEPT !.cur = L.cconn], L.inTx), "PV0c"))
-PR0(a) == Sil(a, "PR0") /\ LET L == th[a] IN Upd(a, Goto(SetB(L, L.inTx), "PR0c"))
-PD0(a) == Sil(a, "PD0") /\ LET L == th[a] IN          \* Pool.drop: pool.con = None, then con.close()
-          Upd(a, Goto(SetB([L EXCEPT !.pool = IF @ = L.cur THEN 0 ELSE @], L.inTx), "PD0c"))
-Fin1(a, l, lr, l2) == Sil(a, l) /\ LET L == th[a] IN
-          Upd(a, IF Top(L).b /\ Sqlite THEN Goto([L EXCEPT !.inTx = FALSE], lr) ELSE Goto(L, l2))
-Fin2(a, l) == Sil(a, l) /\ LET L == th[a] IN
-          Upd(a, IF Top(L).x # NoE THEN RaiseOut(L, Top(L).x) ELSE Ret(L))
-PV1(a) == Fin1(a, "PV1", "PV1r", "PV2")
-PV2(a) == Fin2(a, "PV2")
-PR1(a) == Fin1(a, "PR1", "PR1r", "PR2")
-PR2(a) == Fin2(a, "PR2")
-PD1(a) == Fin1(a, "PD1", "PD1r", "PD2")
-PD2(a) == Fin2(a, "PD2")
+S_PV0(L0) == LET L == L0 IN (Goto(SetB([L EXCEPT !.cur = L.cconn], L.inTx), "PV0c"))
+S_PR0(L0) == LET L == L0 IN (Goto(SetB(L, L.inTx), "PR0c"))
+S_PD0(L0) == LET L == L0 IN          \* Pool.drop: pool.con = None, then con.close()
+          (Goto(SetB([L EXCEPT !.pool = IF @ = L.cur THEN 0 ELSE @], L.inTx), "PD0c"))
+Fin1(L, lr, l2) == IF Top(L).b /\ Sqlite THEN Goto([L EXCEPT !.inTx = FALSE], lr) ELSE Goto(L, l2)
+Fin2(L) == IF Top(L).x # NoE THEN RaiseOut(L, Top(L).x) ELSE Ret(L)
+S_PV1(L0) == Fin1(L0, "PV1r", "PV2")
+S_PV2(L0) == Fin2(L0)
+S_PR1(L0) == Fin1(L0, "PR1r", "PR2")
+S_PR2(L0) == Fin2(L0)
+S_PD1(L0) == Fin1(L0, "PD1r", "PD2")
+S_PD2(L0) == Fin2(L0)
 
 \* ---- SessionCache.close(rollback = b) -----------------------------------------
-CL0(a) == Sil(a, "CL0") /\ LET L == th[a] rb == Top(L).b
+S_CL0(L0) == LET L == L0 rb == Top(L).b
                                L1 == [L EXCEPT !.cache = "closing", !.modified = FALSE, !.pend = {},
                                                !.aborted = IF rb THEN @ \cup L.unit ELSE @,
                                                !.unit = IF rb THEN {} ELSE @] IN
-          Upd(a, IF L.cconn = 0 THEN Goto(L1, "CL9")
+          (IF L.cconn = 0 THEN Goto(L1, "CL9")
                  ELSE LET L2 == [L1 EXCEPT !.cur = L.cconn, !.cconn = 0] IN
                       IF rb THEN Call(L2, "CL2", Fr("PR0")) ELSE Call(L2, "CL3", Fr("RL0")))
-CL2(a) == Sil(a, "CL2") /\ Upd(a, Call(th[a], "CL3", Fr("RL0")))
-CL2x(a) == Sil(a, "CL2x") /\ LET L == th[a] IN Upd(a, Call(GotoX(SetE(L, Top(L).x), "CL2x", NoE), "CL2y", Fr("PD0")))
-CL2y(a) == Sil(a, "CL2y") /\ LET L == th[a] IN Upd(a, GotoX(L, "CL9", Top(L).e))
-CL3(a) == Sil(a, "CL3") /\ Upd(a, Goto(th[a], "CL9"))
-CL9(a) == Sil(a, "CL9") /\ LET L == th[a] L1 == [L EXCEPT !.cache = "none"] IN
-          Upd(a, IF Top(L).x # NoE THEN RaiseOut(L1, Top(L).x) ELSE Ret(L1))
+S_CL2(L0) == (Call(L0, "CL3", Fr("RL0")))
+S_CL2x(L0) == LET L == L0 IN (Call(GotoX(SetE(L, Top(L).x), "CL2x", NoE), "CL2y", Fr("PD0")))
+S_CL2y(L0) == LET L == L0 IN (GotoX(L, "CL9", Top(L).e))
+S_CL3(L0) == (Goto(L0, "CL9"))
+S_CL9(L0) == LET L == L0 L1 == [L EXCEPT !.cache = "none"] IN
+          (IF Top(L).x # NoE THEN RaiseOut(L1, Top(L).x) ELSE Ret(L1))
 
 \* ---- provider.release(connection = cur, cache) --------------------------------
-RL0(a) == Sil(a, "RL0") /\ LET L == th[a] IN
-          Upd(a, IF Sqlite /\ L.sess.kind = "ddl" /\ L.savedFk THEN Goto(L, "RL1") ELSE Goto(L, "RL3"))
-RLx(a) == Sil(a, "RLx") /\ LET L == th[a] IN Upd(a, Goto([L EXCEPT !.pool = IF @ = L.cur THEN 0 ELSE @], "RLxc"))
-RLxe(a) == Sil(a, "RLxe") /\ Upd(a, RaiseOut(th[a], Top(th[a]).x))
-RL3(a) == Sil(a, "RL3") /\ LET L == th[a] IN
-          Upd(a, IF L.sess.kind = "ddl" THEN Call(L, "RL9", Fr("PD0")) ELSE Goto(L, "RL4"))
-RL4x(a) == Sil(a, "RL4x") /\ LET L == th[a] IN Upd(a, Goto([L EXCEPT !.pool = IF @ = L.cur THEN 0 ELSE @], "RL4c"))
-RL4e(a) == Sil(a, "RL4e") /\ Upd(a, RaiseOut(th[a], Top(th[a]).x))
-RL9(a) == Sil(a, "RL9") /\ Upd(a, Ret(th[a]))
+S_RL0(L0) == LET L == L0 IN
+          (IF Sqlite /\ L.sess.kind = "ddl" /\ L.savedFk THEN Goto(L, "RL1") ELSE Goto(L, "RL3"))
+S_RLx(L0) == LET L == L0 IN (Goto([L EXCEPT !.pool = IF @ = L.cur THEN 0 ELSE @], "RLxc"))
+S_RLxe(L0) == (RaiseOut(L0, Top(L0).x))
+S_RL3(L0) == LET L == L0 IN
+          (IF L.sess.kind = "ddl" THEN Call(L, "RL9", Fr("PD0")) ELSE Goto(L, "RL4"))
+S_RL4x(L0) == LET L == L0 IN (Goto([L EXCEPT !.pool = IF @ = L.cur THEN 0 ELSE @], "RL4c"))
+S_RL4e(L0) == (RaiseOut(L0, Top(L0).x))
+S_RL9(L0) == (Ret(L0))
 
 -----------------------------------------------------------------------------
 (* DB-API calls: ok | fail (raises) | crash (the process dies inside the call) *)
-
-NoConn == [st |-> "unused", creator |-> 0, by |-> 0, inDbTx |-> FALSE, txw |-> {}, closes |-> 0, ready |-> FALSE]
 
 Outs(a) == {"ok"} \cup (IF faults > 0 /\ fowner = a THEN {"fail"} \cup (IF AllowCrash THEN {"crash"} ELSE {}) ELSE {})
 
@@ -542,9 +544,10 @@ DbSetupClose(a, out) == LET L == th[a] IN
 \* -- _exec_sql: connection.cursor(), provider.execute ----------------------------
 DbCursor(a, out) == LET L == th[a] IN
     DbCall(a, "ES1", "cursor", L.cconn, out, Goto(L, "ES2"), RaiseOut(L, "dberr"), Same(L.cconn))
-DbExec(a, w, out) == LET L == th[a] c == L.cconn k == L.req.kind IN
+DbExec(a, w, out) == LET L == th[a] c == L.cconn k == Top(L).r.kind IN
+    /\ Lbl(L) = "ES2"
     /\ CASE k = "read"  -> w = 0
-         [] k = "write" -> w = L.req.w
+         [] k = "write" -> w = Top(L).r.w
          [] OTHER       -> w \in L.pend
     /\ DbCallD(a, "ES2", "exec", c, out,
               Ret([L EXCEPT !.inTx = IF L.imm THEN TRUE ELSE @, !.pend = @ \ {w}]),
@@ -607,7 +610,7 @@ DbPoolDropClose(a, out) == LET L == th[a] IN
 (* Processes *)
 
 Fork(a, b) ==      \* os.fork() in thread a; b becomes the (single) thread of the child
-    /\ Quiet /\ Alive(a) /\ MyTurn(a) /\ forks > 0 /\ th[b].pid = 0
+    /\ Alive(a) /\ MyTurn(a) /\ forks > 0 /\ th[b].pid = 0
     /\ Lbl(th[a]) \in {"", "B", "SUSP"}
     /\ ~ForkInSession => th[a].stk = <<>>
     /\ lock[th[a].pid] \in {0, a} /\ pre[th[a].pid] = 0                      \* D8
@@ -618,7 +621,7 @@ Fork(a, b) ==      \* os.fork() in thread a; b becomes the (single) thread of th
     /\ UNCHANGED <<conns, pre, committed, faults, fowner, dead, flags>>
 
 Recover(b) ==      \* after a crash a new process opens the database
-    /\ Quiet /\ dead # {} /\ th[b].pid = 0 /\ npid < 1 + MaxForks + 1
+    /\ dead # {} /\ th[b].pid = 0 /\ npid < 1 + MaxForks + 1
     /\ \A c \in Actors : th[c].pid \in dead \/ th[c].pid = 0
     /\ npid' = npid + 1
     /\ th' = [th EXCEPT ![b] = Fresh(npid + 1)]
@@ -633,18 +636,94 @@ Init ==
     /\ committed = {} /\ faults = MaxFaults /\ forks = MaxForks /\ npid = 1 /\ dead = {}
     /\ flags = [foreignUse |-> FALSE, useAfterClose |-> FALSE, nestedBegin |-> FALSE, badRelease |-> FALSE]
 
-SilentNext(a) ==
-    \/ WC0(a) \/ WC1(a) \/ WC1x(a) \/ WC2(a) \/ WCz(a)
-    \/ WD0(a) \/ WD1(a) \/ WD2(a) \/ WD3(a) \/ WDx(a) \/ WD4(a) \/ WD5(a) \/ WD5x(a) \/ WD6(a) \/ WD7(a) \/ WDz(a)
-    \/ WG0(a) \/ WG1(a) \/ WGy(a) \/ WGr2(a) \/ WGr3(a) \/ WGx(a) \/ WGx2(a) \/ WGx3(a) \/ WG9(a) \/ BX(a)
-    \/ EX0(a) \/ EX2(a) \/ EX3(a) \/ EX4(a) \/ EX4x(a) \/ EX9(a)
-    \/ CM0(a) \/ CM1(a) \/ CM1x(a) \/ CM1y(a) \/ CM2(a) \/ CM2x(a) \/ CC1(a) \/ CC2(a) \/ CCx(a) \/ CCy(a)
-    \/ RB0(a) \/ RB1(a) \/ RB1x(a) \/ FL0(a) \/ FL1(a) \/ FL9(a) \/ ES0(a) \/ PC0(a) \/ PC2(a) \/ PC3(a)
-    \/ CN0(a) \/ CN1e(a) \/ CN2(a) \/ CN3(a) \/ CN3x(a) \/ CN3y(a)
-    \/ ST0(a) \/ ST2(a) \/ ST3(a) \/ ST9(a) \/ ST10(a)
-    \/ PV0(a) \/ PV1(a) \/ PV2(a) \/ PR0(a) \/ PR1(a) \/ PR2(a) \/ PD0(a) \/ PD1(a) \/ PD2(a)
-    \/ CL0(a) \/ CL2(a) \/ CL2x(a) \/ CL2y(a) \/ CL3(a) \/ CL9(a)
-    \/ RL0(a) \/ RLx(a) \/ RLxe(a) \/ RL3(a) \/ RL4x(a) \/ RL4e(a) \/ RL9(a)
+SilentLbls == {"WC0", "WC1", "WC1x", "WC2", "WCz", "WD0", "WD1", "WD2", "WD3", "WDx", "WD4", "WD5", "WD5x", "WD6", "WD7", "WDz", "WG0", "WG1", "WGy", "WGr2", "WGr3", "WGx", "WGx2", "WGx3", "WG9", "BX", "EX0", "EX2", "EX3", "EX4", "EX4x", "EX9", "CM0", "CM1", "CM1x", "CM1y", "CM2", "CM2x", "CC1", "CC2", "CCx", "CCy", "RB0", "RB1", "RB1x", "FL0", "FL1", "FL9", "ES0", "PC0", "PC2", "PC3", "CN0", "CN1e", "CN2", "CN3", "CN3x", "CN3y", "ST0", "ST2", "ST3", "ST9", "ST10", "PV0", "PR0", "PD0", "CL0", "CL2", "CL2x", "CL2y", "CL3", "CL9", "RL0", "RLx", "RLxe", "RL3", "RL4x", "RL4e", "RL9", "PV1", "PV2", "PR1", "PR2", "PD1", "PD2"}
+SilStep(L) ==
+    CASE Lbl(L) = "WC0" -> S_WC0(L)
+      [] Lbl(L) = "WC1" -> S_WC1(L)
+      [] Lbl(L) = "WC1x" -> S_WC1x(L)
+      [] Lbl(L) = "WC2" -> S_WC2(L)
+      [] Lbl(L) = "WCz" -> S_WCz(L)
+      [] Lbl(L) = "WD0" -> S_WD0(L)
+      [] Lbl(L) = "WD1" -> S_WD1(L)
+      [] Lbl(L) = "WD2" -> S_WD2(L)
+      [] Lbl(L) = "WD3" -> S_WD3(L)
+      [] Lbl(L) = "WDx" -> S_WDx(L)
+      [] Lbl(L) = "WD4" -> S_WD4(L)
+      [] Lbl(L) = "WD5" -> S_WD5(L)
+      [] Lbl(L) = "WD5x" -> S_WD5x(L)
+      [] Lbl(L) = "WD6" -> S_WD6(L)
+      [] Lbl(L) = "WD7" -> S_WD7(L)
+      [] Lbl(L) = "WDz" -> S_WDz(L)
+      [] Lbl(L) = "WG0" -> S_WG0(L)
+      [] Lbl(L) = "WG1" -> S_WG1(L)
+      [] Lbl(L) = "WGy" -> S_WGy(L)
+      [] Lbl(L) = "WGr2" -> S_WGr2(L)
+      [] Lbl(L) = "WGr3" -> S_WGr3(L)
+      [] Lbl(L) = "WGx" -> S_WGx(L)
+      [] Lbl(L) = "WGx2" -> S_WGx2(L)
+      [] Lbl(L) = "WGx3" -> S_WGx3(L)
+      [] Lbl(L) = "WG9" -> S_WG9(L)
+      [] Lbl(L) = "BX" -> S_BX(L)
+      [] Lbl(L) = "EX0" -> S_EX0(L)
+      [] Lbl(L) = "EX2" -> S_EX2(L)
+      [] Lbl(L) = "EX3" -> S_EX3(L)
+      [] Lbl(L) = "EX4" -> S_EX4(L)
+      [] Lbl(L) = "EX4x" -> S_EX4x(L)
+      [] Lbl(L) = "EX9" -> S_EX9(L)
+      [] Lbl(L) = "CM0" -> S_CM0(L)
+      [] Lbl(L) = "CM1" -> S_CM1(L)
+      [] Lbl(L) = "CM1x" -> S_CM1x(L)
+      [] Lbl(L) = "CM1y" -> S_CM1y(L)
+      [] Lbl(L) = "CM2" -> S_CM2(L)
+      [] Lbl(L) = "CM2x" -> S_CM2x(L)
+      [] Lbl(L) = "CC1" -> S_CC1(L)
+      [] Lbl(L) = "CC2" -> S_CC2(L)
+      [] Lbl(L) = "CCx" -> S_CCx(L)
+      [] Lbl(L) = "CCy" -> S_CCy(L)
+      [] Lbl(L) = "RB0" -> S_RB0(L)
+      [] Lbl(L) = "RB1" -> S_RB1(L)
+      [] Lbl(L) = "RB1x" -> S_RB1x(L)
+      [] Lbl(L) = "FL0" -> S_FL0(L)
+      [] Lbl(L) = "FL1" -> S_FL1(L)
+      [] Lbl(L) = "FL9" -> S_FL9(L)
+      [] Lbl(L) = "ES0" -> S_ES0(L)
+      [] Lbl(L) = "PC0" -> S_PC0(L)
+      [] Lbl(L) = "PC2" -> S_PC2(L)
+      [] Lbl(L) = "PC3" -> S_PC3(L)
+      [] Lbl(L) = "CN0" -> S_CN0(L)
+      [] Lbl(L) = "CN1e" -> S_CN1e(L)
+      [] Lbl(L) = "CN2" -> S_CN2(L)
+      [] Lbl(L) = "CN3" -> S_CN3(L)
+      [] Lbl(L) = "CN3x" -> S_CN3x(L)
+      [] Lbl(L) = "CN3y" -> S_CN3y(L)
+      [] Lbl(L) = "ST0" -> S_ST0(L)
+      [] Lbl(L) = "ST2" -> S_ST2(L)
+      [] Lbl(L) = "ST3" -> S_ST3(L)
+      [] Lbl(L) = "ST9" -> S_ST9(L)
+      [] Lbl(L) = "ST10" -> S_ST10(L)
+      [] Lbl(L) = "PV0" -> S_PV0(L)
+      [] Lbl(L) = "PR0" -> S_PR0(L)
+      [] Lbl(L) = "PD0" -> S_PD0(L)
+      [] Lbl(L) = "CL0" -> S_CL0(L)
+      [] Lbl(L) = "CL2" -> S_CL2(L)
+      [] Lbl(L) = "CL2x" -> S_CL2x(L)
+      [] Lbl(L) = "CL2y" -> S_CL2y(L)
+      [] Lbl(L) = "CL3" -> S_CL3(L)
+      [] Lbl(L) = "CL9" -> S_CL9(L)
+      [] Lbl(L) = "RL0" -> S_RL0(L)
+      [] Lbl(L) = "RLx" -> S_RLx(L)
+      [] Lbl(L) = "RLxe" -> S_RLxe(L)
+      [] Lbl(L) = "RL3" -> S_RL3(L)
+      [] Lbl(L) = "RL4x" -> S_RL4x(L)
+      [] Lbl(L) = "RL4e" -> S_RL4e(L)
+      [] Lbl(L) = "RL9" -> S_RL9(L)
+      [] Lbl(L) = "PV1" -> S_PV1(L)
+      [] Lbl(L) = "PV2" -> S_PV2(L)
+      [] Lbl(L) = "PR1" -> S_PR1(L)
+      [] Lbl(L) = "PR2" -> S_PR2(L)
+      [] Lbl(L) = "PD1" -> S_PD1(L)
+      [] Lbl(L) = "PD2" -> S_PD2(L)
+Norm(L) == IF Lbl(L) \in SilentLbls THEN Norm(SilStep(L)) ELSE L
 
 BodyNext(a) ==
     \/ BodyStart(a) \/ BodyRead(a) \/ BodyWrite(a) \/ BodyRawWrite(a) \/ BodyFlush(a) \/ BodyCommit(a)
@@ -653,7 +732,7 @@ BodyNext(a) ==
 
 DbNext(a) == \E out \in {"ok", "fail", "crash"} :
     \/ DbConnect(a, out) \/ DbSetup1(a, out) \/ DbSetup2(a, out) \/ DbSetupClose(a, out)
-    \/ DbCursor(a, out) \/ (\E w \in {0, th[a].req.w} \cup th[a].pend : DbExec(a, w, out))
+    \/ DbCursor(a, out) \/ (Lbl(th[a]) = "ES2" /\ \E w \in {0, Top(th[a]).r.w} \cup th[a].pend : DbExec(a, w, out))
     \/ DbModeCursor(a, out) \/ DbModeFkRead(a, out) \/ DbModeFkOff(a, out) \/ DbBegin(a, out)
     \/ DbCommit(a, out) \/ DbRollback(a, out) \/ DbDropClose(a, out)
     \/ DbRelCursor(a, out) \/ DbRelFkOn(a, out) \/ DbRelFkClose(a, out) \/ DbPoolRollback(a, out) \/ DbPoolDropClose(a, out)
@@ -664,7 +743,7 @@ LockNext(a) == \/ LockPre(a) \/ LockAcquire(a) \/ LockReleaseSetMode(a) \/ LockR
 SessNext(a) == \/ \E f \in Forms, k \in Kinds, r \in 0..MaxRetry, d \in BOOLEAN : Start(a, f, k, r, d)
                \/ Resume(a) \/ End(a)
 
-ActorNext(a) == SilentNext(a) \/ BodyNext(a) \/ DbNext(a) \/ LockNext(a) \/ SessNext(a)
+ActorNext(a) == BodyNext(a) \/ DbNext(a) \/ LockNext(a) \/ SessNext(a)
 
 AllDone == \A a \in Actors : th[a].pid = 0 \/ th[a].pid \in dead \/ (th[a].stk = <<>> /\ th[a].sessDone = MaxSess)
 Done == AllDone /\ UNCHANGED vars
@@ -703,7 +782,7 @@ ConnAccounted ==        \* every connection is the thread's pooled one, or was c
           \A c \in ConnIds : conns[c].by = a /\ conns[c].st # "unused" /\ conns[c].creator = th[a].pid =>
                \/ c = th[a].pool /\ conns[c].closes = 0 /\ conns[c].ready /\ th[a].poolPid = th[a].pid
                \/ c # th[a].pool /\ conns[c].closes = 1
-    /\ \A a \in Live : Idle(a) => th[a].cache = "none" /\ th[a].cconn = 0
+    /\ \A a \in Live : Idle(a) \/ Lbl(th[a]) = "END" => th[a].cache = "none" /\ th[a].cconn = 0
     /\ ~flags.useAfterClose /\ ~flags.nestedBegin
 
 NeverBlockedByDead ==   \* nobody who is outside a session (or dead) is in the way of a later session
@@ -718,19 +797,20 @@ Atomic ==
     /\ \A a \in Actors : th[a].aborted \cap committed = {}              \* abandoned units never become durable
     /\ \A a \in Live : th[a].unit \cap committed = {}                   \* an open unit is not partly durable
     /\ \A a \in Live : Lbl(th[a]) = "PV0c" => conns[th[a].cur].txw = th[a].unit   \* COMMIT covers exactly the unit
-    /\ \A a \in Live : Idle(a) => th[a].unit = {}
+    /\ \A a \in Live : Idle(a) \/ Lbl(th[a]) = "END" => th[a].unit = {}
 AtomicStep ==           \* the durable content changes only in the DB-API commit of a session, by exactly its unit
     committed' # committed =>
-        \E a \in Actors : Lbl(th[a]) = "PV0c" /\ committed' = committed \cup th[a].unit
+        \/ \E a \in Actors : Lbl(th[a]) = "PV0c" /\ committed' = committed \cup th[a].unit
+        \/ \E a \in Actors : Reduce /\ Lbl(th[a]) = "END" /\ committed' \subseteq committed   \* End forgets (see End)
 AtomicAction == [][AtomicStep]_vars
 
 \* C18 -------------------------------------------------------------------------------
-Finished(a) == th[a].fin /\ th[a].stk = <<>> /\ th[a].pid \notin dead
+Finished(a) == Alive(a) /\ Lbl(th[a]) = "END"
 CommitIffSuccess ==
     \A a \in Actors : Finished(a) =>
         LET L == th[a] IN
         /\ L.bodyOut \notin {"ok", "allowed"} => L.lastW \cap committed = {}
-        /\ L.result \notin {"ok", "allowed"} => L.lastW \cap committed = {}
+        /\ L.result = "commitexc" => L.lastW \cap committed = {}            \* a failed commit committed nothing
         /\ L.result = "ok" => L.bodyOut = "ok" /\ L.lastW \subseteq committed
         /\ L.result = "allowed" /\ L.sess.form # "gen" => L.lastW \subseteq committed
         /\ ~L.faulted => L.result = L.bodyOut                             \* the body's exception propagates
@@ -749,7 +829,7 @@ OutermostLbls == {"EX2", "EX3", "EX4", "EX4x", "EX9"}
 OutermostOnly ==
     \A a \in Live : \A i \in 1..Len(th[a].stk) : th[a].stk[i].l \in OutermostLbls => th[a].depth = 0
 OutermostStep ==        \* leaving an inner session changes the counter and nothing else
-    \A a \in Actors : th[a].depth > 1 /\ th'[a].depth = th[a].depth - 1 =>
+    \A a \in Actors : th[a].depth > 1 /\ th'[a].depth = th[a].depth - 1 /\ Lbl(th'[a]) = "B" =>
         /\ committed' = committed /\ conns' = conns /\ lock' = lock
         /\ th'[a].cache = th[a].cache /\ th'[a].unit = th[a].unit /\ th'[a].inTx = th[a].inTx
 OutermostAction == [][OutermostStep]_vars
